@@ -111,12 +111,24 @@ def argument(arg_kind, seed):
         return rs.uniform(0.5, 1.5, 3) + 1j * rs.uniform(0.5, 1.5, 3)
     if arg_kind == "matrix":
         return rs.uniform(0.5, 1.5, (3, 2))
+    if arg_kind in ("outtuple", "outlist", "outdict"):
+        return rs.uniform(0.5, 1.5, 3)
     if arg_kind == "container":
         return (rs.uniform(0.5, 1.5, 2), {"k": float(rs.uniform(0.5, 1.5))})
     raise ValueError(arg_kind)
 
 
 def function(arg_kind, f):
+    # container-valued OUTPUT whose first element comes from a correct built-in rule: the planted defect sits in a later element only
+    if arg_kind == "outtuple":
+        from autograd.builtins import tuple as atuple
+        return lambda x: atuple((np.cos(x), f(x)))
+    if arg_kind == "outlist":
+        from autograd.builtins import list as alist
+        return lambda x: alist([np.cos(x), np.exp(x), f(x)])
+    if arg_kind == "outdict":
+        from autograd.builtins import dict as adict
+        return lambda x: adict({"a": np.cos(x), "b": f(x)})
     if arg_kind == "container":
         from autograd.builtins import tuple as atuple
         return lambda c: atuple((f(c[0]), f(c[1]["k"]) * 2.0))
